@@ -37,6 +37,22 @@ def shapes(rng, hist, nk):
     for i in range(5):
         ops += gc_round(101, i % 2 == 0)
     out.append(("interrupted", ops))
+    # S6: progress under a time limit that lets a cycle finish exactly ONE file: after a draining complete cycle the present
+    #     keys are removed one at a time, each removal flushed and followed by a cycle with limit 2 (one freelist entry = two
+    #     checks; the check after the first processed file fails).  Exactly one file is unvisited at each of those cycles -
+    #     the one the removal affected - so on the code as it is every file that has become dead has been processed when
+    #     the phase ends.  (A cycle that forgets the file it processed when the limit strikes never gets past it.)
+    present = set()
+    for o in hist:
+        if o["op"] == "put":
+            present.add(o["k"])
+        elif o["op"] == "rem":
+            present.discard(o["k"])
+    ops = list(hist) + [{"op": "flush"}] + gc_round(101, False)
+    for k in sorted(present):
+        ops += [{"op": "rem", "k": k}, {"op": "flush"}, {"op": "prigc", "lowUse": 101, "deadline": 2}]
+    ops += [{"op": "flush", "mark": "limitedend"}]
+    out.append(("one-file-per-cycle", ops))
     # S4: fixed point of idle rounds
     ops = list(hist) + [{"op": "flush"}, {"op": "gcfix", "n": 8, "lowUse": 85, "scanFree": True}]
     out.append(("fixed-point", ops))
@@ -61,14 +77,15 @@ def run(pid):
         for kind, ops in shapes(rng, h, nk):
             scens.append({"cfg": c, "ops": ops})
             kinds.append(kind)
-    vlib.log("C11: %d histories x 5 shapes = %d scenarios" % (len(hs), len(scens)))
+    vlib.log("C11: %d histories x 6 shapes = %d scenarios" % (len(hs), len(scens)))
     by, n = seqeng.run_and_judge(scens, "c11", monitors=[("C11Trace", None), ("StoreTrace", None)])
     # contents must of course survive all of this too (StoreTrace); attribute only C11Trace rules and crashes here
     mine = {}
     for t, items in by.items():
         own = [x for x in items if x["rule"] in ("dead-primary-file-not-released", "dead-index-file-not-released", "low-use-file-not-drained",
                                                    "gc-increased-storage", "no-fixed-point", "process-crash-or-hang",
-                                                   "emptied-oldest-primary-file-not-unlinked", "emptied-oldest-index-file-not-unlinked")]
+                                                   "emptied-oldest-primary-file-not-unlinked", "emptied-oldest-index-file-not-unlinked",
+                                                   "dead-primary-file-not-released-by-time-limited-cycles")]
         if own:
             mine[t] = own
     report_bad(rep, scens, mine)
